@@ -204,6 +204,8 @@ func ExecPool(t *testing.T, pa any, col *kernel.Collector) []kernel.Violation {
 }
 
 func execPool(p *PoolPlan, col *kernel.Collector) []kernel.Violation {
+	simStart := time.Now() // the bubble's clock: elapsed = simulated time
+	defer func() { col.AddSim(time.Since(simStart)) }()
 	chainsim.ResetCrit()
 	mrand.Seed(int64(HashPoolPlan(p) & 0x7fffffffffffffff))
 	u, err := chainsim.Build(&p.Recipe)
